@@ -186,7 +186,9 @@ def lex(
         A :class:`TokenIterator` object
     """
     if isinstance(lines, str):
-        lines = lines.splitlines()
+        # only LF, CRLF and CR end a line; str.splitlines() would also
+        # split at VT, FF, FS-US, NEL, LS and PS, which a file does not
+        lines = re.split(r'\r\n|\r|\n', lines)
     if pattern is not None:
         if isinstance(pattern, str):
             regex = re.compile(pattern, flags=re.VERBOSE)
